@@ -510,9 +510,13 @@ macros[Profiles.CSS_LEVEL_2] = {
     'specific-voice': r'{ident}',
     'generic-voice': r'male|female|child',
     'content': r'{string}|{uri}|{counter}|attr\({w}{ident}{w}\)|open-quote|close-quote|no-open-quote|no-close-quote',
-    'background-attrs': r'{background-color}|{background-image}|{background-repeat}|{background-attachment}|{background-position}',
-    'list-attrs': r'{list-style-type}|{list-style-position}|{list-style-image}',
-    'font-attrs': r'{font-style}|{font-variant}|{font-weight}',
+    # (the alternatives of the -attrs macros are disjoint single components:
+    # joined from the longhand macros, which share 'inherit', 'normal', 'none',
+    # 'center' and one or two lengths, a value that does not match was
+    # tried in exponentially many ways)
+    'background-attrs': r'{color}|transparent|{uri}|none|repeat-x|repeat-y|no-repeat|repeat|scroll|fixed|{percentage}|{length}|left|center|right|top|bottom',
+    'list-attrs': r'disc|circle|square|decimal-leading-zero|decimal|lower-roman|upper-roman|lower-greek|lower-(latin|alpha)|upper-(latin|alpha)|armenian|georgian|none|inside|outside|{uri}',
+    'font-attrs': r'normal|italic|oblique|small-caps|bolder|bold|lighter|[1-9]00',
     'text-attrs': r'underline|overline|line-through|blink',
     'overflow': r'visible|hidden|scroll|auto|inherit',
 }
@@ -606,7 +610,8 @@ properties[Profiles.CSS_LEVEL_2] = {
     'unicode-bidi': r'normal|embed|bidi-override|inherit',
     'vertical-align': r'baseline|sub|super|top|text-top|middle|bottom|text-bottom|{percentage}|{length}|inherit',
     'visibility': r'visible|hidden|collapse|inherit',
-    'voice-family': r'(({specific-voice}|{generic-voice}){w},{w})*({specific-voice}|{generic-voice})|inherit',
+    # (a generic voice is an identifier like a specific one: one alternative)
+    'voice-family': r'({specific-voice}{w},{w})*{specific-voice}|inherit',
     'volume': r'{number}|{percentage}|silent|x-soft|soft|medium|loud|x-loud|inherit',
     'white-space': r'normal|pre|nowrap|pre-wrap|pre-line|inherit',
     'widows': r'{integer}|inherit',
